@@ -296,6 +296,8 @@ Chunks == {WithBuf(c) : c \in {c \in ChunkSet :
              /\ c.maps[Len(c.maps)].gl = c.lines => c.maps[Len(c.maps)].gc <= c.fcol
              /\ \A i \in 1..Len(c.maps) : c.maps[i].src < c.nsrc}}
 Offsets == {Off(l, c) : l \in 0..1, c \in Cols}
+\* (a smaller set that a config may substitute: Offsets <- FewOffsets)
+FewOffsets == {Off(0, 0), Off(1, Max(Cols))}
 
 LinkInit == s = [n |-> 0, L |-> Link0, d |-> St0, e |-> Zero, pend |-> Zero, afterNull |-> FALSE,
                  rs |-> << >>, ok |-> TRUE, sorted |-> TRUE, inrange |-> TRUE, named |-> TRUE]
